@@ -17,7 +17,9 @@ RULE = ("vertex lists classified by an exact integer oracle on their generating 
         "figure-eights, a vertex pushed through a far edge (proper crossing, margin 1e-2), and the boundary families "
         "vertex-on-edge / collinear-overlap / spike-tip-on-edge pushed through or held back by 1e-3..1e-2 of the height "
         "(exactly-on-the-boundary members are generated and OBSERVED only); (N,2), z=0, z=const, randomly rotated, "
-        "almost-axis-aligned (tilt 1e-7..3e-2 rad) and far (scale ~1e3, offset 10 diameters) planes, scale 1e-3..1e3; "
+        "almost-axis-aligned (tilt 1e-7..3e-2 rad) and far (scale ~1e3, offset 10 diameters) planes, scale 1e-3..1e3, and "
+        "the placement grid sizes 2^-30..2^30 x {plane through the origin, 1e3..1e6 diameters away within the plane / along "
+        "the normal / generic} with valid and 1 %-lifted polygons; "
         "duplicates, < 3 vertices, bad shapes, one vertex lifted off the plane by > 1 % of the diameter, explicit "
         "normals +-n (any length) and tilted >= 0.1 rad; convex position (depth > 1e-3) vs one interior point deeper "
         "than 1e-3 diameters for ConvexPolygon/ConvexSpheropolygon (ALL permutations for n <= 6, random ones above) and "
@@ -44,8 +46,10 @@ ASSUMPTIONS = [
     "deviations below ~1e-6 rad in planes that are not axis planes the known finding "
     "Polygon.__init__:rejects-valid:nearly-straight-first-corner; for accepted ones the stored normal is only required "
     "to be normal within 1e-3 of the size (a tenth of the property's planarity margin)",
-    "planar inputs are planar up to rounding; the constructor's absolute tolerance 1e-8 (np.isclose atol) makes "
-    "acceptance of perturbed planes scale dependent - not part of the property's quantifier",
+    "planar inputs are planar up to rounding; since 744f807 the constructor compares the distance from the plane through "
+    "vertex 0 with planar_tolerance x extent, so the verdict may not depend on position or size: valid polygons at sizes "
+    "2^-30..2^30, in planes through the origin and 1e3..1e6 diameters away (within the plane, along the normal, "
+    "generic) must be accepted and > 1 %-off-plane vertices rejected at every such placement",
     "Qhull (vertex count of the hull) and rowan.mapping.kabsch (alignment with z) are parameters of the model; their "
     "results are fed to the model in the correspondence runs",
     "3-D convex position is certified by gen.in_convex_position (scipy hulls with margins), not by the Lean spec",
@@ -203,12 +207,23 @@ def model_polygon(ctx, case, v, normal, ptol, test_simple=True):
     with warnings.catch_warnings():
         warnings.simplefilter("ignore")
         aligned, _ = pg._align_points_by_normal(n_model, V)
+    asserted = sweep_asserts(aligned)
     try:
         r = ctx.driver.F("c15.polygon", ndim, ncols, L(rows), ntok, float(ptol), 1, L([a for a in aligned]),
-                         1 if sweep_asserts(aligned) else 0)
+                         1 if asserted else 0)
+        fkind = "ok"
     except ModelRaise as e:
-        return e.kind, n_model
-    return "ok", np.array(r[0:3])
+        fkind = e.kind
+    if fkind not in ("ok", "ValueError:simple"):
+        return fkind, n_model
+    # The simplicity predicate at Float is unreliable where non-adjacent edges are (nearly) collinear — all four
+    # orientation values of such a pair are rounding noise, and noise of opposite signs looks like a proper crossing —
+    # although the edges are far apart. The verdict of the model is therefore taken from the EXACT evaluation (rationals)
+    # of the same predicate on the same aligned doubles.
+    exact = bool(ctx.driver.Q("c15.simple", L([a for a in aligned]))[0]) and not asserted
+    if exact != (fkind == "ok"):
+        ctx.count("model:float-orientation-overruled-by-exact")
+    return ("ok" if exact else "ValueError:simple"), n_model
 
 
 def sweep_asserts(aligned):
@@ -302,7 +317,8 @@ def eval_polygon(ctx, case):
     if "p2" in case:
         q = ctx.driver.Q("spec.c15.simple", L([np.asarray(r, dtype=float) for r in case["p2"]]))
         want = (expect == "accept") if why in ("simple", "crossing", "straight-first-corner",
-                                               "nearly-straight-first-corner") else None
+                                               "nearly-straight-first-corner",
+                                               "coplanarity-depends-on-placement") else None
         if why.startswith("boundary-"):
             want = False        # closed segments: touching / overlapping is "not simple"
         if want is not None and q[0] != want:
@@ -361,9 +377,49 @@ def check_polygon_object(ctx, cls, case, p, vin, normal, same_order):
     return True
 
 
-def embed_any(rng, p2, mode):
-    """(vertices, embed info) for mode in n2 / xy / xyz0 / random / far / neartilt"""
+PLACEMENT_SCALES = [2.0 ** -30, 2.0 ** -20, 2.0 ** -10, 1.0, 2.0 ** 10, 2.0 ** 20, 2.0 ** 30]
+PLACEMENT_OFFSETS = ["through-origin", "in-plane-far", "normal-far", "generic-far"]
+
+
+def placement_embed(rng, p2, k=None):
+    """The placements at which a test that compares with the distance of the PLANE FROM THE ORIGIN, or with an absolute
+    size, goes wrong (744f807): size 2^-30 .. 2^30, a plane through the origin (d = 0: nothing but rounding is
+    tolerated by a relative test against d), the polygon moved 1e3 .. 1e6 diameters within its plane, along its normal,
+    or in a generic direction; generic, almost-axis-aligned or axis-aligned orientation."""
     p2 = np.asarray(p2, dtype=float)
+    k = int(rng.integers(10 ** 6)) if k is None else k
+    sc = PLACEMENT_SCALES[k % len(PLACEMENT_SCALES)]
+    off = PLACEMENT_OFFSETS[(k // len(PLACEMENT_SCALES)) % len(PLACEMENT_OFFSETS)]
+    orient = ["random", "random", "neartilt", "axis"][int(rng.integers(4))]
+    if orient == "random":
+        R = gen.random_rotation(rng)
+    elif orient == "neartilt":
+        R = gen.near_axis_rotation(rng)
+    else:
+        R = np.eye(3)[:, [[1, 2, 0], [2, 0, 1], [0, 1, 2]][int(rng.integers(3))]]
+    u, w, n = R[:, 0], R[:, 1], R[:, 2]
+    q = p2 * sc
+    d = float(np.max(np.linalg.norm(q[:, None] - q[None], axis=-1)))
+    far = float(10 ** rng.uniform(3, 6)) * d * (1.0 if rng.random() < 0.5 else -1.0)
+    if off == "through-origin":
+        t = np.zeros(3)
+    elif off == "in-plane-far":
+        a = rng.uniform(0, 2 * np.pi)
+        t = far * (np.cos(a) * u + np.sin(a) * w)
+    elif off == "normal-far":
+        t = far * n
+    else:
+        g = rng.normal(size=3)
+        t = far * g / np.linalg.norm(g)
+    v = t[None, :] + q[:, :1] * u[None, :] + q[:, 1:2] * w[None, :]
+    return v, {"mode": "placement", "scale": sc, "offset": off, "orientation": orient, "n_true": n.tolist()}
+
+
+def embed_any(rng, p2, mode):
+    """(vertices, embed info) for mode in n2 / xy / xyz0 / random / far / neartilt / axis / extreme / placement"""
+    p2 = np.asarray(p2, dtype=float)
+    if mode == "placement":
+        return placement_embed(rng, p2)
     if mode == "n2":
         sc = 1.0 if rng.random() < 0.5 else float(10 ** rng.uniform(-3, 3))
         return p2 * sc, {"mode": "n2", "scale": sc, "n_true": [0.0, 0.0, 1.0]}
@@ -388,13 +444,14 @@ def embed_any(rng, p2, mode):
 
 CROSSING_KINDS = ["bowtie", "star", "doublewind", "twolaps", "spiralchord", "figure8", "pushthrough"]
 BOUNDARY_KINDS = ["touch", "overlap", "tjunction"]
-EMBED_MODES = ["n2", "xy", "xyz0", "random", "far", "neartilt", "axis", "extreme", "random"]
+EMBED_MODES = ["n2", "xy", "xyz0", "random", "far", "neartilt", "axis", "extreme", "random", "placement"]
 
 
 def polygon_cases(ctx, n_simple, n_cross, n_other):
     rng = ctx.rng
     yield from crossing_kind_cases(ctx, max(2, n_cross // 12))
     yield from near_straight_cases(ctx, max(6, n_simple // 6))
+    yield from placement_cases(ctx, max(1, n_simple // 70))
     for i in range(max(16, n_simple // 4)):
         # two neighbouring vertices 1.5e-3..1e-2 diameters apart, at an end of the scale range (and (N,2) at scale 1e-3):
         # clearly different vertices whatever the absolute size
@@ -557,6 +614,37 @@ def crossing_kind_cases(ctx, reps):
                    "vertices": np.asarray(v).tolist(), "embed": e}
 
 
+def placement_cases(ctx, reps):
+    """every size 2^-30 .. 2^30 x every kind of offset (plane through the origin, far within the plane, far along the
+    normal, far in a generic direction), each with a clearly valid polygon (must be accepted) and with the same kind of
+    polygon one vertex of which is lifted off the plane by > 1 % of the diameter (must be rejected): the decision may
+    not depend on where the polygon is or how large it is (744f807)."""
+    rng = ctx.rng
+    k = int(rng.integers(1000))
+    for _ in range(reps):
+        for j in range(len(PLACEMENT_SCALES) * len(PLACEMENT_OFFSETS)):
+            p2, info = gen.c15_simple_polygon(rng, margin=1e-2)
+            v, e = placement_embed(rng, p2, k + j)
+            tag = "scale-2^%d:%s" % (int(round(np.log2(e["scale"]))), e["offset"])
+            if j % 2 == 0 or len(p2) < 4:
+                ctx.count("polygon:placement:valid:" + tag)
+                case = {"kind": "polygon", "expect": "accept", "why": "coplanarity-depends-on-placement",
+                        "p2": p2.tolist(), "info": info, "vertices": v.tolist(), "embed": e}
+                if rng.random() < 0.3:
+                    sgn = 1.0 if rng.random() < 0.5 else -1.0
+                    case["normal"] = (np.array(e["n_true"]) * sgn * float(np.exp(rng.uniform(-2, 2)))).tolist()
+                yield case
+            else:
+                w, li = gen.c15_lift(rng, v, e["n_true"])
+                if gen.c15_width(w) / 2 <= 2e-4 * gen.diameter(w):
+                    ctx.count("dropped:nonplanar-width")
+                    continue
+                ctx.count("polygon:placement:lifted:" + tag)
+                yield {"kind": "polygon", "expect": "reject", "why": "nonplanar-at-placement", "info": info,
+                       "vertices": w.tolist(), "embed": e, "lift": li}
+        k += 3
+
+
 def near_straight_cases(ctx, n):
     """simple planar polygons whose FIRST corner deviates from a straight angle by 1e-12 .. 1e-3 rad: clearly simple
     (a straight angle is no decision boundary of simplicity), planar up to rounding — the property demands acceptance."""
@@ -580,7 +668,10 @@ def eval_is_simple(ctx, case):
     p = np.array(case["p2"], dtype=float) * case.get("scale", 1.0) + np.array(case.get("shift", [0.0, 0.0]))
     pl = np.c_[p, np.zeros(len(p))]
     impl = outcome(lambda: bool(pg._is_simple(pl)))
-    m = ctx.driver.F("c15.simple", L([r for r in pl]))[0]
+    # the model's verdict on the very doubles the implementation gets, evaluated exactly (see model_polygon)
+    m = ctx.driver.Q("c15.simple", L([r for r in pl]))[0]
+    if ctx.driver.F("c15.simple", L([r for r in pl]))[0] != m:
+        ctx.count("model:float-orientation-overruled-by-exact")
     q = ctx.driver.Q("spec.c15.simple", L([np.asarray(r, dtype=float) for r in case["p2"]]))[0]
     want = case["expect"] == "accept"
     if q != want:
@@ -723,7 +814,7 @@ def convex_polygon_cases(ctx, n_perm_sets, n_random, n_interior, n_sphero):
     rng = ctx.rng
 
     def embed(p2, mode=None):
-        mode = mode or ["n2", "xy", "random", "random", "axis", "neartilt"][int(rng.integers(6))]
+        mode = mode or ["n2", "xy", "random", "random", "axis", "neartilt", "placement"][int(rng.integers(7))]
         ctx.count("embed:" + mode)
         if mode == "n2":
             return np.array(p2, dtype=float), {"mode": "n2", "n_true": [0.0, 0.0, 1.0]}
@@ -1572,6 +1663,11 @@ def run(ctx):
 
 
 def replay(ctx, payload):
+    if "broken" in payload and "case" not in payload:      # a correspondence break without a failing input
+        for b in payload["broken"]:
+            ctx.case(b["case"])
+            eval_case(ctx, b["case"])
+        return
     case = payload.get("case", payload)
     ctx.case(case)
     eval_case(ctx, case)
